@@ -58,14 +58,16 @@ func vc16_render() {
 
 func vc16_import_extends() {
 	s := vsym_string(1)
-	macro := "{% macro M(x string) %}<i>{{ x }}{{ s }}</i>{% end %}"
-	use := "<p>{{ M(\"a\") }}</p>"
+	// the name of the macro: every upper-case ASCII letter
+	name := string([]byte{byte('A' + vsym_choice(26))})
+	macro := "{% macro " + name + "(x string) %}<i>{{ x }}{{ s }}</i>{% end %}"
+	use := "<p>{{ " + name + "(\"a\") }}</p>"
 	local, e0 := vc16_run(Files{"index.html": []byte(macro + use)}, "index.html", &s)
 	vassert(e0 == nil, "local-macro-runs")
 	imported, e1 := vc16_run(Files{"index.html": []byte("{% import \"m.html\" %}" + use), "m.html": []byte(macro)}, "index.html", &s)
 	vassert(e1 == nil, "imported-macro-runs")
 	vassert(imported == local, "imported-macro-behaves-as-if-declared-in-the-importing-file")
-	named, e2 := vc16_run(Files{"index.html": []byte("{% import m \"m.html\" %}<p>{{ m.M(\"a\") }}</p>"), "m.html": []byte(macro)}, "index.html", &s)
+	named, e2 := vc16_run(Files{"index.html": []byte("{% import m \"m.html\" %}<p>{{ m." + name + "(\"a\") }}</p>"), "m.html": []byte(macro)}, "index.html", &s)
 	vassert(e2 == nil && named == local, "macro-imported-with-a-name-behaves-alike")
 	ext, e3 := vc16_run(Files{"index.html": []byte("{% extends \"l.html\" %}" + macro), "l.html": []byte(use)}, "index.html", &s)
 	vassert(e3 == nil, "extending-file-runs")
@@ -73,5 +75,22 @@ func vc16_import_extends() {
 	vreach("end")
 }
 
+// a rendered file that itself assigns a render expression to a variable,
+// after having produced output: shown directly, through a variable and run
+// on its own it gives the same text
+func vc16_nested() {
+	s := vsym_string(1)
+	f := "f1{% var u = render \"g.html\" %}f2{{ u }}f3"
+	g := "G{{ s }}"
+	direct, e1 := vc16_run(Files{"index.html": []byte("<p>{{ render \"f.html\" }}</p>"), "f.html": []byte(f), "g.html": []byte(g)}, "index.html", &s)
+	viaVar, e2 := vc16_run(Files{"index.html": []byte("{% var t = render \"f.html\" %}<p>{{ t }}</p>"), "f.html": []byte(f), "g.html": []byte(g)}, "index.html", &s)
+	own, e3 := vc16_run(Files{"f.html": []byte(f), "g.html": []byte(g)}, "f.html", &s)
+	vassert(e1 == nil && e2 == nil && e3 == nil, "nested-renders-run")
+	vassert(direct == viaVar, "nested-render-equals-render-assigned-to-a-variable")
+	vassert(direct == "<p>"+own+"</p>", "nested-render-equals-the-partial-run-on-its-own")
+	vreach("end")
+}
+
+func vh_c16_nested_q()         { vc16_nested() }
 func vh_c16_render_q()         { vc16_render() }
 func vh_c16_import_extends_q() { vc16_import_extends() }
